@@ -43,9 +43,19 @@ CHECKS = {
   "Complete enumeration of parameter masks {lazy,strict}^{1..3} x variadic tail x 11 call routes (direct, alias, parameter, computed callee, apply on array/list, map, tail recursion, forcing after the caller returned with shadowing locals, erroring argument in a lazy/strict position) x 5 force patterns; value and effect trace (count and order of argument evaluations) validated by TLC against ZSem's thunk rules.",
   "typed func declarations are not among the routes; ZSem's defined fragment only",
   "TLA+ reference semantics (ZSem); TLC trace validation of recorded executions"),
+ "C15": ("Quasi", "translation_validation",
+  "Quasi!Subst is an independent substitution function over templates with unquote / unquote-splicing in lists, arrays and hash forms (its laws are model-checked by TLC over all small templates). Every ^template of width <= 3 over 18 element kinds plus depth-3 nestings is evaluated on the real interpreter and compared by TLC with Subst; 8 macro bodies x 5 call sites: macexpand vs Subst, macro call vs hand-written expansion (value and effects), caller depths/globals around the expansion.",
+  "template language of Quasi.tla (no nested syntax-quotes, no top-level splice); hand expansion text written by the harness's own substitution",
+  "TLA+ spec (Quasi); TLC law audit + TLC trace validation of recorded evaluations"),
+ "C17": ("Records", "model_checking",
+  "TLC explores every history (up to 4 steps over the full palette, 5 over a reduced one) of declare / redeclare / construct / decode / field write (direct, non-symbol key, through a struct or pointer field) / element assignment / whole-instance assignment of the typed-record machine and checks WellTyped, RejectedUnchanged, KeepsDefinition; every step of exhaustive route x field-type x value-kind matrices, redeclaration histories, all short operation histories and seeded random histories executed on the real interpreter is validated by TLC against the same transition relation (result and the keys / value types of every live instance).",
+  "2-4 struct names, 8 field types, 21 value kinds, 35 routes; struct/pointer values across redeclared versions and cross-version derefSet are unconstrained; value types are read off Go values; one open known finding (slice-element-unchecked) is a named deviation",
+  "TLA+ spec (Records); TLC bounded exhaustive exploration + TLC trace validation of recorded executions; named deviations"),
 }
 
 ENGINES = [
+ {"name": "Quasi", "path": "spec/Quasi.tla spec/MCQuasi.tla spec/QuasiTrace.tla", "serves_properties": ["C15"], "kind_free_text": "TLA+ functional spec + law audit + trace specification, TLC"},
+ {"name": "Records", "path": "spec/Records.tla spec/RecordsTrace.tla spec/MCRecords.tla", "serves_properties": ["C17"], "kind_free_text": "TLA+ state machine + trace specification, TLC"},
  {"name": "ZSem+FaultTrace", "path": "spec/ZSem.tla spec/FaultTrace.tla", "serves_properties": ["C05"], "kind_free_text": "TLA+ reference semantics with failure injection + trace specification, TLC"},
  {"name": "Session+Bytecode", "path": "spec/SessionTrace.tla spec/Bytecode.tla", "serves_properties": ["C04"], "kind_free_text": "TLA+ trace specification of the interpreter's rest state + abstract interpreter of dumped bytecode, TLC"},
  {"name": "NumTower", "path": "spec/NumTower.tla spec/MCNumTower.tla spec/NumTrace.tla", "serves_properties": ["C07"], "kind_free_text": "TLA+ functional spec on limb sequences + trace specification, TLC"},
